@@ -51,3 +51,85 @@ pub fn frame_from_stream_nonblocking(
 ) -> crate::restion::Restion<Frame, crate::error::WebsocketError> {
     Frame::from_stream_nonblocking(stream)
 }
+
+/* ------------------------------------------------------------------------------------------------
+ * H4: event tracing for the polling loop of `AsyncWebsocketApp::run`.
+ *
+ * The loop reports what it sees and what it is about to do through [`app_event`]. Nothing happens
+ * unless a sink has been installed with [`install_app_sink`]. The sink is called while one global mutex
+ * is held and receives a sequence number, so the events form one totally ordered log. Every event is
+ * reported by the thread running `run`, *before* the action it announces (dispatch, send, removal,
+ * insertion) and *after* the observation it records (receive result, clock reading, channel read).
+ * ---------------------------------------------------------------------------------------------- */
+
+use std::net::SocketAddr;
+use std::sync::{Mutex, PoisonError};
+
+/// What `recv_nonblocking` returned for a stream.
+#[derive(Clone, Debug, PartialEq, Eq)]
+pub enum RecvSummary {
+    /// `Restion::Ok(message)`: the text flag and the payload.
+    Message(bool, Vec<u8>),
+    /// `Restion::Err(e)`; `true`: the stream is now marked closed (`e` was `ConnectionClosed`).
+    Err(bool),
+    /// `Restion::None`
+    None,
+}
+
+/// One observable step of `AsyncWebsocketApp::run`.
+#[derive(Clone, Debug, PartialEq, Eq)]
+pub enum AppEvent {
+    /// The shutdown receiver yielded a signal; the loop is about to be left.
+    ShutdownSeen,
+    /// The loop has been left (before the handler pool is stopped).
+    LoopExit,
+    /// A new iteration polls the streams in this key order.
+    IterStart(Vec<SocketAddr>),
+    /// The heartbeat decision of this iteration.
+    WillPing(bool),
+    /// `recv_nonblocking` on this stream returned.
+    Recv(SocketAddr, RecvSummary),
+    /// The message handler is about to be submitted to the pool.
+    DispatchMessage(SocketAddr, bool, Vec<u8>),
+    /// The disconnect handler is about to be submitted to the pool.
+    DispatchDisconnect(SocketAddr),
+    /// The connect handler is about to be submitted to the pool.
+    DispatchConnect(SocketAddr),
+    /// The stream is about to be removed from the table.
+    Removed(SocketAddr),
+    /// The stream has not answered a ping within the timeout.
+    TimedOut(SocketAddr),
+    /// A ping is about to be sent to this stream.
+    Ping(SocketAddr),
+    /// A newly handshaken stream is about to be inserted (`true`: the address is already in the table).
+    Admitted(SocketAddr, bool),
+    /// A unicast was taken from the outgoing channel (`true`: the addressee is in the table, so it is sent).
+    OutUnicast(SocketAddr, bool, bool, Vec<u8>),
+    /// A broadcast was taken from the outgoing channel; it is about to be sent to these streams in this order.
+    OutBroadcast(Vec<SocketAddr>, bool, Vec<u8>),
+}
+
+/// Receives every event with its sequence number (counted from the installation of the sink).
+pub type AppSink = Box<dyn Fn(u64, AppEvent) + Send + Sync>;
+
+static APP_SINK: Mutex<Option<(u64, AppSink)>> = Mutex::new(None);
+
+/// Installs the sink, replacing any previous one; the sequence counter starts at 0.
+pub fn install_app_sink(sink: AppSink) {
+    *APP_SINK.lock().unwrap_or_else(PoisonError::into_inner) = Some((0, sink));
+}
+
+/// Removes the sink; events are dropped again.
+pub fn remove_app_sink() {
+    *APP_SINK.lock().unwrap_or_else(PoisonError::into_inner) = None;
+}
+
+/// Reports an event. No-op unless a sink is installed.
+pub fn app_event(ev: AppEvent) {
+    let mut guard = APP_SINK.lock().unwrap_or_else(PoisonError::into_inner);
+    if let Some((seq, sink)) = guard.as_mut() {
+        let n = *seq;
+        *seq += 1;
+        sink(n, ev);
+    }
+}
